@@ -398,16 +398,24 @@ def correspond(ctx, text, replay, flavour):
     evs = []
     for l in text.split("\n"):
         if l.startswith("EV "):
-            f = l.split(" ", 5)
-            if len(f) >= 5:
-                evs.append((int(f[1]), int(f[2]), f[3], int(f[4]), f[5] if len(f) > 5 else ""))
+            f = l.split(" ", 6)
+            if len(f) >= 6:
+                evs.append((int(f[1]), int(f[2]), f[3], int(f[4]), f[6] if len(f) > 6 else "", int(f[5])))
     if not evs or not DRIVER.get("exe"):
         return
     evs.sort()
     ids = {"No error": 0}
     items, observed, trivial = [], [], []
     last_fail = {}
-    for seq, tid, kind, H, msg in evs:
+    citems, cobs = [], []
+    for seq, tid, kind, H, msg, code in evs:
+        # error-code trace (ErrCode.lcreplay): TJERR_WARNING = 0, TJERR_FATAL = 1
+        if kind in "NCFK":
+            citems.append("%d %s %d %d" % (tid, kind, tid * 4 + max(H, 0), 1 if (kind == "F" and code == 0) else 0))
+            if kind == "K":
+                cobs.append((code, tid, H, seq))
+        if kind == "K":
+            continue
         m = ids.setdefault(msg, len(ids)) if kind in "FTGQ" else 0
         inst = tid * 4 + max(H, 0)
         items.append("%d %s %d %d" % (tid, kind, inst, m))
@@ -415,8 +423,20 @@ def correspond(ctx, text, replay, flavour):
             observed.append((m, tid, kind, H, msg, seq))
             trivial.append(last_fail.get(tid) == (inst if kind == "G" else -1))
         last_fail[tid] = inst if kind == "F" else (-1 if kind == "T" else None)
-    rc, out, err = sh2([DRIVER["exe"]], input=("|".join(items) + "\n").encode(), timeout=600)
-    pred = out.decode().split()
+    rc, out, err = sh2([DRIVER["exe"]], input=("|".join(items) + "\nK|" + "|".join(citems) + "\n").encode(), timeout=600)
+    olines = out.decode().split("\n")
+    pred = olines[0].split() if olines else []
+    cpred = olines[1].split() if len(olines) > 1 else []
+    if rc == 0 and len(cpred) == len(cobs):
+        for p_, o_ in zip(cpred, cobs):
+            CORR["code_queries"] = CORR.get("code_queries", 0) + 1
+            if int(p_) != o_[0]:
+                ctx.violation("error-code model and implementation disagree: thread %d tj3GetErrorCode on instance slot %d (event %d) returned %d, "
+                              "the model (code of the instance's own most recent failing call: 0 = TJERR_WARNING, 1 = TJERR_FATAL) predicts %s"
+                              % (o_[1], o_[2], o_[3], o_[0], p_), dict(replay, code_events=citems[:4000]), signature="errcode-model:" + flavour)
+                return
+    elif rc == 0:
+        ctx.broken_tie("model-driver", "extracted code replay: %d predictions for %d queries" % (len(cpred), len(cobs)))
     CORR["traces"] += 1
     CORR["events"] += len(items)
     if rc != 0 or len(pred) != len(observed):
@@ -554,6 +574,15 @@ def diagnose(ctx, ents, gen_path):
                 bad.append("error-state: %s assigns a non-literal to isInstanceError" % fn)
             if fld == "isInstanceError" and how == "1" and not any(f == fn and g == "errStr" for f, g, _ in ws):
                 bad.append("error-state: %s raises isInstanceError without storing a message in the instance" % fn)
+        if ("my_error_exit", "warning", "0") not in ws:
+            bad.append("error-code: my_error_exit no longer clears jerr.warning (a fatal error must supersede an earlier warning)")
+        if ("my_emit_message", "warning", "1") not in ws:
+            bad.append("error-code: my_emit_message no longer sets jerr.warning for a libjpeg warning")
+        for fn, fld, how in ws:
+            if fld == "warning" and how == "1" and fn not in ("my_emit_message", "tj3GetICCProfile"):
+                bad.append("error-code: %s sets jerr.warning" % fn)
+            if fld == "isInstanceError" and how == "1" and fn != "set_instance_error" and not any(f == fn and g == "warning" for f, g, _ in ws):
+                bad.append("error-code: %s records a failure without assigning jerr.warning" % fn)
         if ("my_output_message", "set_instance_error") not in cs:
             bad.append("error-state: my_output_message no longer records the libjpeg message in the instance (set_instance_error not called)")
         for c, f in cs:
@@ -633,7 +662,7 @@ def run(ctx):
         for b in bad[:6]:
             ctx.log("inventory:", b)
         if bad:
-            ctx.broken_tie("inventory", "generated facts that break globals_are_benign / env_sites / source_errstate: " + " || ".join(bad[:6]))
+            ctx.broken_tie("inventory", "generated facts that break globals_are_benign / env_sites / source_errstate / source_errcode: " + " || ".join(bad[:6]))
     ctx.cov["inventory_entries"] = len(ents)
     ctx.cov["inventory_classes"] = {c: sum(1 for e in ents if e["cls"] == c) for c in sorted(set(e["cls"] for e in ents))}
     if ents:
